@@ -88,3 +88,27 @@ PROPS['C08'] = {
     'require': {'words.swept': 2048 * 3 + 7 * 512, 'tokens.prefix.en.accepted': 2500, 'tokens.prefix.en.rejected': 5000,
                 'tokens.accent-terminated-prefix.es.accepted': 100, 'tokens.foreign-letter-inserted.fr.rejected': 1000, 'mixed.permitted.OK': 10000},
 }
+
+# ---------------------------------------------------------------------------------------------------------------
+# texts for MANIFEST.json (tools/gen_manifest.py)
+_TB = 'Trusted: gcc 12 + sanitizer runtimes, libutf8proc as NFC/NFKD, the reference model (validated at start-up against vectors from the independent Python spec and the vectors published in tests/tests.c), golden word lists of the pinned commit. '
+MANIFEST_TEXT = {
+    'C03': {'technique': 'runtime monitoring: encode output vs executable reference model (ASan/UBSan build)',
+            'text': 'Every polyseed_encode output and stored check value of the run is compared byte-for-byte with an independent model of the published layout; the zero seed, all 164 loadable single-bit seeds and all their pairs are enumerated completely in every language for three coins (a bit-linear packing is determined by them), plus random/boundary seeds and the same seed reached through four different histories. Held-on-what-was-executed, not a proof.',
+            'note': _TB + 'Exhaustive only for the single-bit/pair sub-space.'},
+    'C07': {'technique': 'runtime monitoring: exhaustive language x index x position sweep through the API vs golden lists (ASan/UBSan; assertion-enabled build in thorough)',
+            'text': 'All 10 x 2048 x 16 (language, index, position) combinations are driven through polyseed_encode (harvesting the words the library emits) and through both decoders, and compared with the frozen lists; pairwise uniqueness clauses are evaluated on the harvested words and through the API. The finite space named by the property is enumerated completely; the claim is limited to the executions produced.',
+            'note': _TB + '"As published" means equal to golden/*.txt extracted from the pinned commit (BIP-39 cannot be fetched offline). The clause "no word is a prefix of another" is checked operationally (DESIGN.md C07).'},
+    'C08': {'technique': 'runtime monitoring: decode_explicit on enumerated token variants vs reference matcher (ASan/UBSan)',
+            'text': 'For every word (all of es/fr/en on every run, every language in thorough) every prefix length x accent subset x NFC/NFD form and nine boundary classes are embedded in valid phrases and decoded by the real library; acceptance, status and seed must equal the model matcher. Plus random phrases with an independent variant at each position.',
+            'note': _TB + 'Tokens with combining marks outside U+0300-U+036F in es/fr are treated as unspecified (not judged).'},
+    'C16': {'technique': 'runtime monitoring: dead-stack scan on driver-owned thread stacks + inspection of blocks at the injected free, 6 optimisation levels/compilers, with positive control',
+            'text': 'Each API function x exit path x language runs on a pre-patterned stack owned by the driver; afterwards the dead stack is searched for secret/password/mask windows, phrase tokens and word-index runs, and every block reaching the injected free must be zero and covered by a logged injected-memzero call. A log-only memzero control run must find residue, otherwise the check is inconclusive (exit 2).',
+            'note': _TB + 'Registers and memory owned by the dependencies are out of scope; observed for gcc -O0..-O3/-Os and clang -O2 on x86-64.'},
+    'C17': {'technique': 'runtime monitoring: exact per-language bound from words harvested through the API + extremal witnesses under ASan (also assertion-enabled build)',
+            'text': 'The worst-case phrase length of every language (sum of per-position maxima over the admissible words, in internal/decoder/output form) is computed from the words the library itself emits and compared with POLYSEED_STR_SIZE of the header being compiled; extremal witness seeds (the 543-byte Korean phrase is reached) are encoded into an exact-size buffer under ASan and fed back to both decoders.',
+            'note': _TB + 'The bound is exhaustive over words x positions x languages; witnesses are sampled.'},
+    'C19': {'technique': 'runtime monitoring: differential transcripts of -fsigned-char vs -funsigned-char builds (ASan/UBSan) + model comparison',
+            'text': 'One deterministic script (all forms of phrases in all languages, every word of every list, non-ASCII passwords, grammar strings) is executed on both builds; per-case transcript digests must be identical and equal the model where it is authoritative.',
+            'note': _TB + 'Signedness is varied by compiler flag on x86-64; other ABI differences of ARM/PowerPC are not reproduced.'},
+}
